@@ -6,7 +6,6 @@ import (
 	"encoding/json"
 	"fmt"
 	"os"
-	"runtime"
 	"testing"
 	"testing/synctest"
 )
@@ -65,7 +64,15 @@ func TestVPReplay(t *testing.T) {
 	}
 	synctest.Test(t, func(t *testing.T) {
 		vpReset(&in)
-		vpQuiesceHook = func() { synctest.Wait() }
+		// synctest.Wait must not be called by two goroutines at once: serialise with a channel (a goroutine
+		// blocked on a channel is durably blocked, so the other Wait can complete)
+		waitSem := make(chan struct{}, 1)
+		wait := func() {
+			waitSem <- struct{}{}
+			synctest.Wait()
+			<-waitSem
+		}
+		vpQuiesceHook = wait
 		stop := make(chan struct{})
 		go func() {
 			for _, lbl := range in.Resumes {
@@ -76,9 +83,10 @@ func TestVPReplay(t *testing.T) {
 						return
 					}
 				}
-				for i := 0; i < 50; i++ {
-					runtime.Gosched()
-				}
+				// let the released goroutine run until it blocks again before the next release (the executor runs
+				// one goroutine at a time); goroutines parked on a sync.Mutex are not durably blocked, but then the
+				// run is a deadlock replay and is recognised by the watchdog
+				wait()
 			}
 			vpFreeRun()
 		}()
